@@ -18,7 +18,7 @@ import time
 import vlib
 
 PROPERTY = "C01"
-LEAN_MODULES = ["TapkeeVerif.Props.C01"]
+LEAN_MODULES = ["TapkeeVerif.Props.C01", "TapkeeVerif.Props.C01Sites"]
 LEAN_EXES = ["model_c01"]
 REQUIRED_THEOREMS = ["TapkeeVerif.C01." + t for t in [
     # §1 model sanity
@@ -35,7 +35,10 @@ REQUIRED_THEOREMS = ["TapkeeVerif.C01." + t for t in [
     "assert_sites_listed", "largest_strategies_skip_zero",
     # §4 termination
     "kSeq_reaches_complete_graph", "findNeighbors_terminates", "perplexity_bisection_bounded", "iteration_counts_bounded",
-    "spe_default_iterations"]]
+    "spe_default_iterations"]] + ["TapkeeVerif.C01Sites." + t for t in [
+    # §5 the index-site inventory (Gen/IndexSites.lean) and its pin (Props/C01Sites.lean)
+    "covered_sound", "sweep_only_sites_accepted", "every_sweep_only_site_is_accepted", "loop_index_in_range",
+    "loopvar_bounds_are_extents", "loopvar_sites_in_range"]]
 # sites whose full statement may currently be refuted: either `<name>` or (`<name>_refuted` and `<name>_partial`)
 SITE_THEOREMS = ["inb_hlle_col", "inb_hlle_eigvec_rightCols", "inb_ltsa_eigvec_rightCols", "inb_pca_rightCols",
                  "inb_landmark_rightCols", "inb_dense_segment", "inb_gen_segment", "inb_gen_linear_cols", "inb_tsne_posf",
@@ -75,6 +78,54 @@ def translate(ctx):
     spec.loader.exec_module(mod)
     changed = mod.generate(vlib.REPO, os.path.join(vlib.LEAN_DIR, "TapkeeVerif", "Gen", "IndexExprs.lean"))
     ctx.log("Gen/IndexExprs.lean %s" % ("regenerated (changed)" if changed else "unchanged"))
+    translate_site_inventory(ctx)
+
+
+ACCEPTED_ROW = re.compile(r'^\s*\("((?:[^"\\]|\\.)*)", "((?:[^"\\]|\\.)*)", "((?:[^"\\]|\\.)*)", (\d+)\),?', re.M)
+
+
+def accepted_sites():
+    """the hand-kept list `accepted` of Props/C01Sites.lean: {(file, function, normal form): accepted occurrences}"""
+    src = open(os.path.join(vlib.LEAN_DIR, "TapkeeVerif", "Props", "C01Sites.lean")).read()
+    i = src.index("def accepted : List Key := [")
+    j = src.index("\n]", i)
+    un = lambda t: t.replace('\\"', '"').replace("\\\\", "\\")
+    return {(un(m.group(1)), un(m.group(2)), un(m.group(3))): int(m.group(4)) for m in ACCEPTED_ROW.finditer(src[i:j])}
+
+
+def translate_site_inventory(ctx):
+    """Gen/IndexSites.lean: EVERY slice / coefficient / subscript site of the library with its coverage class
+    (tools/translate_sites.py).  The pin itself is a Lean theorem (Props/C01Sites.sweep_only_sites_accepted); the same
+    comparison is made here so that the report NAMES the site that is new, or no longer covered by a loop bound."""
+    spec = importlib.util.spec_from_file_location("translate_sites", os.path.join(vlib.ROOT, "tools", "translate_sites.py"))
+    mod = importlib.util.module_from_spec(spec)
+    spec.loader.exec_module(mod)
+    changed, files, sites, mg = mod.generate(vlib.REPO, os.path.join(vlib.LEAN_DIR, "TapkeeVerif", "Gen", "IndexSites.lean"))
+    ctx.log("Gen/IndexSites.lean %s" % ("regenerated (changed)" if changed else "unchanged"))
+    summ = mod.summary(sites)
+    summ["files_scanned"] = len(files)
+    summ["theorems_referenced"] = sorted({t for s in sites if s.cov == "theorem" for t in s.why.split("|")})
+    acc = accepted_sites()
+    cur = mod.sweep_only_keys(mg)
+    summ["accepted_sweep_only_rows"] = len(acc)
+    summ["sweep_only_rows"] = len(cur)
+    summ["accepted_rows_no_longer_in_the_source"] = sorted("%s:%s:%s" % k for k in acc if k not in cur)[:40]
+    ctx.c01_site_summary = summ
+    ctx.c01_site_theorems = summ["theorems_referenced"]
+    bad = []
+    for k in sorted(cur):
+        if cur[k] > acc.get(k, 0):
+            ss = [s for s in sites if s.cov == "sweep-only" and (s.rel.replace("tapkee/", ""), s.fn, s.norm) == k]
+            raws = sorted({s.raw for s in ss})
+            whys = sorted({s.why for s in ss if s.why})
+            bad.append(k)
+            ctx.broken("sites:unaccepted:%s:%s:%s" % k, "Props/C01Sites.sweep_only_sites_accepted (%s, %s)" % (k[0], k[1]),
+                       "index site `%s` in %s of %s (normal form `%s`) occurs %d time(s) in the sweep-only class, %d accepted: "
+                       "it is new, or it is no longer covered by its loop bound / theorem [%s] — no in-bounds argument "
+                       "is on file for it" % (" | ".join(raws)[:200], k[1], k[0], k[2], cur[k], acc.get(k, 0), "; ".join(whys)[:300]),
+                       detail={"site": list(k), "spellings": raws, "why_not_loopvar": whys, "occurrences": cur[k],
+                               "accepted": acc.get(k, 0)})
+    summ["unaccepted_sweep_only_sites"] = ["%s:%s:%s" % k for k in bad]
 
 
 # ----------------------------------------------------------------------------- case lines
@@ -718,6 +769,17 @@ def site_status(ctx):
             ctx.broken("props:site:" + sname, "Props/C01.lean " + sname,
                        "neither the full theorem %s nor its refutation + partial form is present" % sname)
     ctx.extra["index_sites"] = status
+    for t in getattr(ctx, "c01_site_theorems", []):
+        if t not in names and not (t + "_refuted" in names and t + "_partial" in names):
+            ctx.broken("sites:theorem-missing:" + t, "Gen/IndexSites.lean coverage tag `thm %s`" % t,
+                       "the site inventory tags sites as covered by the theorem %s, which Props/C01.lean does not contain" % t)
+    if hasattr(ctx, "c01_site_summary"):
+        ctx.extra["index_site_inventory"] = ctx.c01_site_summary
+        ctx.stat("sites:total", ctx.c01_site_summary["sites"])
+        ctx.stat("sites:theorem", ctx.c01_site_summary["theorem"])
+        ctx.stat("sites:loopvar", ctx.c01_site_summary["loopvar"])
+        ctx.stat("sites:loopvar-index-obligations", ctx.c01_site_summary["loopvar_index_arguments"])
+        ctx.stat("sites:sweep-only", ctx.c01_site_summary["sweep_only"])
     ctx.extra["open_findings_in_props"] = sorted(k for k, v in status.items() if v.startswith("refuted"))
 
 
